@@ -41,7 +41,7 @@ def fEvents (p : Bool) : FSpec → List Ev
   | .follower si => [.start (q p nF) [(nT, XlsxFormula.tShared), (XlsxFormula.nSiAttr, dec si)], .stop (q p nF)]
 
 def renderCell (p : Bool) (row col : Nat) (c : SCell) : List Ev :=
-  [.start (q p nC) [(nR, refName false row col)]] ++ fEvents p c.f ++ (if c.value then vEvents p [49] else [])
+  [.start (q p nC) [(nR, refName false row col)]] ++ fEvents p c.f ++ (if c.value then vEventsPlain p [49] else [])
     ++ [.stop (q p nC)]
 
 def renderCells (p : Bool) (row : Nat) : List (Nat × SCell) → List Ev
